@@ -480,3 +480,7 @@ v 0.0 -2.0 0.0
         }
     }
 }
+
+#[cfg(kani)]
+#[path = "/verif/kani/io.rs"]
+pub(crate) mod verif_kani;
